@@ -1466,6 +1466,9 @@ write_gvar_data(Relocation *cur, Initializer *init, Type *ty, char *buf, int off
   char **label = NULL;
   uint64_t val = eval2(init->expr, &label);
 
+  if (!label && ty->kind == TY_BOOL)
+    val = is_flonum(init->expr->ty) ? (eval_double(init->expr) != 0) : (val != 0);
+
   if (!label) {
     write_buf(buf + offset, val, ty->size);
     return cur;
